@@ -27,6 +27,7 @@ type ssoP struct {
 	Host      string // request Host ("" = idp.example)
 	ACS       string // ACS list shape of SP A (see ssoACSLists)
 	Persist   string // CreateAuthRequest answer: "" ok | error | empty-id | error-ctx-deadline | error-ctx-canceled
+	StoreLookup string // how the storage matches entity IDs: "" exact | case-insensitive | trailing-slash
 	Lookup    string // GetEntityByID answer: "" ok | error | error-ctx-deadline | error-ctx-canceled
 	// --- message content
 	Issuer   string // "" a | b | absent | empty | padded | unregistered | case | slash | a+evil | evil+a
@@ -95,6 +96,9 @@ var ssoTimes = map[string]func() string{
 	"+1s":   func() string { return msg.FmtTime(world.Now.Add(time.Second)) },
 	"+1y":   func() string { return msg.FmtTime(world.Now.Add(365 * 24 * time.Hour)) },
 	"junk":  func() string { return "yesterday" },
+	"zero":  func() string { return "0001-01-01T00:00:00Z" },
+	"epoch": func() string { return "1970-01-01T00:00:00Z" },
+	"max":   func() string { return "9999-12-31T23:59:59.999999Z" },
 	"date":  func() string { return world.Now.Format("2006-01-02") },
 	"tz":    func() string { return world.Now.Add(-time.Hour).Format("2006-01-02T15:04:05+00:00") },
 	"tz+":   func() string { return world.Now.Add(time.Hour).Format("2006-01-02T15:04:05+00:00") },
@@ -146,7 +150,7 @@ type ssoTruth struct {
 }
 
 func (p ssoP) config() world.Config {
-	c := world.Config{WantSigned: p.IdPFlag}
+	c := world.Config{WantSigned: p.IdPFlag, StoreLookup: p.StoreLookup}
 	switch p.IssuerCfg {
 	case "static-path":
 		c.StaticIssuer = "https://idp.example/saml/"
@@ -706,6 +710,8 @@ func (p *ssoP) set(name, val string) {
 		p.Persist = val
 	case "Lookup":
 		p.Lookup = val
+	case "StoreLookup":
+		p.StoreLookup = val
 	case "Issuer":
 		p.Issuer = val
 	case "ID":
